@@ -5,6 +5,7 @@ import HappyProofs.C14.LsmFinal
 import HappyModel.C14.Driver
 import HappyProofs.C14.BTreeMain
 import HappyProofs.C14.TxnMain
+import HappyProofs.C14.TxnLsm
 /-!
 # C14 — property theorems (LSM tree as a map)
 
